@@ -76,7 +76,11 @@ def generate(rng, cfg: Dict) -> Dict:
             ops.append([k, new_serial])
         else:
             ops.append([k])
-    if c.chance(0.12):
+    if c.chance(0.1):
+        # last op of the history: the program keeps only the collection, its owner dies, and the collection is handed to
+        # the constructor of a new instance (most likely allocated where the dead owner was), which is then written
+        ops.append(["heir_write", c.pick(["append", "iadd"] if kind == "list" else ["add", "ior"]), c.pick(elems), c.chance(0.7)])
+    elif c.chance(0.12):
         # last op of the history: a shallow copy of the owner (it shares the container object, as plain Python objects
         # do) is written through; the written element must be recorded for the copy
         ops.append(["alias_write", c.pick(["append", "iadd"] if kind == "list" else ["add", "ior"]), c.pick(elems)])
@@ -187,6 +191,54 @@ def execute(scenario: Dict) -> Dict:
                 if not check(k, n):
                     break
                 continue
+            if k == "heir_write":
+                if op[2] not in pop.objs:
+                    counters.inc("ops_skipped")
+                    continue
+                counters.inc("fault.write_path.heir_" + op[1])
+                heir_serial = owner_serial + 3
+                try:
+                    collection = getattr(owner, field)
+                    old_id = id(owner)
+                    pop.objs.pop(owner_serial, None)
+                    # the elements let go of the owner as well (their inverse fields are un-assigned), so that the
+                    # collection is all that is left of it
+                    inv_field_name = PROPS[PROPS[prop]["inverse"]]["field"]
+                    e_obj = None
+                    for e_serial, e_obj in pop.objs.items():
+                        if pop.cls_of.get(e_serial) == tgt["elem_cls"]:
+                            setattr(e_obj, inv_field_name, [] if PROPS[PROPS[prop]["inverse"]]["kind"] == "list" else set())
+                    del e_obj
+                    owner = None
+                    other[0] = None
+                    if op[3]:
+                        gc.collect()
+                    heir = oworld.ONTOLOGY_CLASSES[tgt["owner_cls"]](heir_serial, **{field: collection})
+                    if id(heir) == old_id:
+                        counters.inc("probe.heir_on_the_dead_owners_address")
+                    del collection
+                    pop.objs[heir_serial] = heir
+                    pop.cls_of[heir_serial] = tgt["owner_cls"]
+                    elem = pop.objs[op[2]]
+                    if op[1] == "append":
+                        getattr(heir, field).append(elem)
+                    elif op[1] == "add":
+                        getattr(heir, field).add(elem)
+                    elif op[1] == "iadd":
+                        exec(f"o.{field} += [x]", {"o": heir, "x": elem})
+                    else:
+                        exec(f"o.{field} |= {{x}}", {"o": heir, "x": elem})
+                except Exception as e:
+                    verdicts.append(kernel.verdict("C16.exception", f"op {n} (heir_write {op[1]}) raised {type(e).__name__}: {e}", op=k, kind=kind))
+                    break
+                # as for alias_write, only the write itself is judged: the element is recorded for the instance written
+                facts = set(pop.graph_facts())
+                inv_prop = PROPS[prop]["inverse"]
+                want = {(heir_serial, prop, op[2]), (op[2], inv_prop, heir_serial)}
+                if not want <= facts:
+                    verdicts.append(kernel.verdict("C16.recorded", f"after op {n} ({op[1]} on an instance constructed with the collection that outlived its dead owner): relations missing from the graph {sorted(want - facts, key=str)}", op=k, kind=kind, aspect="missing"))
+                nontrivial = True
+                break
             if k == "alias_write":
                 import copy as _copy
 
